@@ -24,6 +24,7 @@ type c10Opts struct {
 	name          string
 	serverCB      bool // server stream in callback mode
 	closeInCB     bool // server's OnData closes the stream
+	waitRemote    bool // ... after it has waited (inside OnData) until the peer's close was handled
 	clientCloses  bool
 	serverCloses  bool // server closes from a plain goroutine as soon as it has the stream (concurrently with the client)
 	doubleClose   bool // a second client thread closes the same stream concurrently
@@ -82,6 +83,7 @@ func c10AfterLocalClose(who string, sess *Session, st *Stream) {
 func c10Body(o c10Opts) func() {
 	return func() {
 		var cst, sst *Stream
+		serverCalledClose := false
 		var rc *recordingCallbacks
 		accepted := 0
 		lcb := &listenCB{}
@@ -97,7 +99,11 @@ func c10Body(o c10Opts) func() {
 					b, _ := r.ReadBytes(r.Len())
 					rc.got = append(rc.got, b...)
 					r.ReleasePreviousRead()
+					if o.waitRemote {
+						vrt.Point("wait-peer-close", func() bool { return !s.IsOpen() })
+					}
 					s.Close()
+					serverCalledClose = true
 				}
 			}
 			s.SetCallbacks(rc)
@@ -199,12 +205,20 @@ func c10Body(o c10Opts) func() {
 				if err := sst.Close(); err != nil {
 					vrt.Failf("close-error", "server Close: %v", err)
 				}
+				serverCalledClose = true
 			}))
 		}
 		vrt.WaitThreads(ths...)
 		vrt.WaitIdle(vrt.Second)
 		_ = serverKnowsRemote
 		if o.serverCB && rc != nil {
+			// a local Close is final: once it was called (from inside OnData or from another goroutine) and the system is
+			// quiescent, the stream is closed and no longer active - without anybody calling Close again
+			if serverCalledClose {
+				if st := sst.getStreamState(); st != uint32(streamClosed) {
+					vrt.Failf("close-not-final", "the server called Close on its stream; at quiescence its state is %d (not closed) and active=%v", st, p.s.getStreamById(sst.id) == sst)
+				}
+			}
 			// whatever happened, the server end is closed now or gets closed here; then exactly one close callback
 			if sst.IsOpen() || sst.getStreamState() == uint32(streamHalfClosed) {
 				t := vrt.GoProc("server-final-close", 2, func() { sst.Close() })
@@ -244,5 +258,6 @@ func TestVerif_C10(t *testing.T) {
 		mk(c10Opts{name: "callback-server-client-close", serverCB: true, clientCloses: true}, 1, 2),
 		mk(c10Opts{name: "callback-server-local-close", serverCB: true, serverCloses: true, clientReadEOF: true}, 2, 3),
 		mk(c10Opts{name: "close-inside-ondata", serverCB: true, closeInCB: true, clientReadEOF: true}, 2, 3),
+		mk(c10Opts{name: "peer-close-during-ondata-then-close-inside", serverCB: true, closeInCB: true, waitRemote: true, clientCloses: true}, 1, 2),
 	})
 }
